@@ -1,7 +1,7 @@
 CFG = dict(
     props_file='Props/C07.v',
     coq_targets=['Checks/C07.vo', 'Props/C07.vo'],
-    bin='groupa', bin_args=['c07'], n_quick=160, n_thorough=8000, thorough_args=[],
+    bin='groupa', bin_args=['c07'], n_quick=160, n_thorough=2400, thorough_args=[],
     level_text="C07_wf_answer_partial: for EVERY program, EDB and fuel the engine strategy's answer is duplicate-free and every answer tuple is an instance of a clause of the answer relation with that clause's head arity and head constants verbatim (induction over the execution order and over the local fixpoint). Partial: aggregate heads (arity part) and the recursive min/max-in-loop path are not modelled; the oracle checks set-ness, arity and head constants on every implementation answer, incl. aggregate and recursive-aggregate programs.",
     level_note='Trusted: Coq kernel; hand-written Gallina model of clause semantics and of the engine strategy (Model/Datalog.v) — IRBuilder, the optimizer passes and Differential Dataflow are validated by the correspondence, not derived; harness printers.',
     corr_name='eval_engine vs IQLEngine::execute_tuples',
